@@ -315,6 +315,10 @@ class Program:
             n_ac = 0 if os.environ.get("SV_NO_ATTRCOPY") else propagate_attr_copies(tree)
             if n_ac:
                 inlined = inlined + [f"put back {n_ac} attribute chain(s) that had been copied into locals"]
+            from .normalize import propagate_pure_hoists
+
+            if not os.environ.get("SV_NO_HOISTS"):
+                propagate_pure_hoists(tree)
             for _round in range(3):
                 n_pc = propagate_param_copies(tree)
                 n_cc = coalesce_copies(tree)
